@@ -20,6 +20,7 @@
  *     V es d task..   __parsec_schedule_vp(es or NULL when es = -1, {ring}, d)
  *     L es            module.select(es, &dist)
  *     N es            __parsec_get_next_task(es)   (static inline in scheduling.c: replicated below)
+ *     F es            __parsec_schedule_flush_private(es)
  *     D               rounds of N by streams 0..n-1 until a whole round returns nothing
  * Observation: one token per L/N (`id` or -1), `[es:id ...]` per D, then `| left k`
  * with k = tasks handed in minus tasks handed out.
@@ -170,6 +171,9 @@ int main(int argc, char **argv) {
                     if (kind == 'S') parsec_current_scheduler->module.schedule(ES(es), ring, (int32_t)d);
                     else { parsec_task_t *rings[1] = { ring }; __parsec_schedule_vp(es < 0 ? NULL : ES(es), rings, (int32_t)d); }
                 }
+            } else if (kind == 'F') {
+                long es = strtol(p, NULL, 10);
+                __parsec_schedule_flush_private(ES(es));
             } else if (kind == 'L' || kind == 'N') {
                 long es = strtol(p, NULL, 10); int dist = 0;
                 parsec_task_t *t = (kind == 'L') ? parsec_current_scheduler->module.select(ES(es), &dist)
